@@ -163,7 +163,9 @@ def st_solve(draw, tier, hom=False):
     cls = "hom" if hom else draw(st.sampled_from(CLASSES))
     return {"kind": "hom" if hom else "solve", "grid": draw(st_grid(M, N)), "particles": draw(st_particles(P)),
             "bg": draw(st_background(cls)), "kernel": draw(st_kernel(P)),
-            "install": draw(st.sampled_from(["files", "direct"])),
+            # "files_other": files stored in the basis the solver does NOT use, so that the loader's
+            # basis change is part of what the cross-basis oracle sees
+            "install": draw(st.sampled_from(["files", "direct", "files_other"])),
             "mult": draw(st.sampled_from([1.0, 1.0, 0.5, 3.0]))}
 
 
@@ -299,12 +301,15 @@ def install_collisions(solver, case, grid, parts, basisN, Ks, tmpdir):
     from WallGo.collisionArray import CollisionArray
 
     N = grid.N
-    if case.get("install") == "files" and tmpdir is not None:
-        d = os.path.join(tmpdir, f"coll_{basisN}")
+    if case.get("install") in ("files", "files_other") and tmpdir is not None:
+        stored = basisN
+        if case.get("install") == "files_other":
+            stored = "Cardinal" if basisN == "Chebyshev" else "Chebyshev"
+        d = os.path.join(tmpdir, f"coll_{stored}")
         if not os.path.isdir(d):
             names = [p.name for p in parts]
-            tens = cf.build_tensors(names, N, basisN, Ks)
-            cf.write_directory(d, names, N, tens, basis=basisN)
+            tens = cf.build_tensors(names, N, stored, Ks)
+            cf.write_directory(d, names, N, tens, basis=stored)
         solver.loadCollisions(pathlib.Path(d))
     else:
         ca = CollisionArray(grid, basisN, parts)
@@ -522,7 +527,7 @@ def check_solve(case, v: Verdict):
             "M<=8" if g["M"] <= 8 else ("M<=16" if g["M"] <= 16 else "M<=24"),
             f"install:{case.get('install')}", "stats:" + "".join(p["stat"][0] for p in case["particles"]),
             "n<200" if n < 200 else ("n<1000" if n < 1000 else "n>=1000"))
-    tmpdir = tempfile.mkdtemp(prefix="c12_") if case.get("install") == "files" else None
+    tmpdir = tempfile.mkdtemp(prefix="c12_") if case.get("install") in ("files", "files_other") else None
     try:
         configs = [c + ("Spectral",) for c in SPECTRAL_CONFIGS] + [("Cardinal", "Cardinal", "Finite Difference"),
                                                                    ("Cardinal", "Cardinal", "Finite Difference", "route")]
